@@ -66,6 +66,9 @@ func main() {
 	switch os.Args[1] {
 	case "worker":
 		mc.WorkerMain()
+	case "ilvdet":
+		n, _ := strconv.Atoi(os.Args[3])
+		props.C14Determinism(os.Args[2], n, nil)
 	case "racepass":
 		n, _ := strconv.Atoi(os.Args[2])
 		os.Exit(props.RacePassMain(n))
